@@ -1,3 +1,5 @@
+#[path = "../drops.rs"]
+mod drops;
 fn main() {
-    chumsky_verif_harness::drops::main();
+    drops::main();
 }
